@@ -71,7 +71,7 @@ def run(ctx):
         try:
             # each enforcer starts from its own files
             for lv in lives:
-                for w in ([('write', 'main', 'fixed'), ('write', 'd1/a', 'old'), ('write', 'd1/b', 'new')] if force_shared else
+                for w in ([('write', 'main', 'fixed'), ('write', 'd1/a', 'old'), ('write', 'd1/b', 'old')] if force_shared else
                           rng.sample([('write', 'main', 'new'), ('write', 'd1/a', 'old'), ('write', 'd2/a', 'alias'), ('write', 'd1/b', 'both')], rng.randint(0, 3))):
                     lv.step(w)
             for op, ei in seq:
